@@ -491,8 +491,35 @@ def upvar_update_calls(cr, body, idx):
     return [(p, fld if p.endswith("Vec::len") else None) for p, fld in out]
 
 
+def directory_naming(ctx, cr):
+    """`test --dir` parses each rules file under a name (the parser span's `extra`) that becomes part of the default rule's name
+    (`<name>/default`), which expectations refer to.  The plain and the structured directory handlers must name a file the same way —
+    both hand the same field of the directory entry to Span::new_extra — or an expectation met in one rendering is "not set" in the other."""
+    from rules.c04 import receiver_field
+    rule = "R-C16-same-core"
+    got = {}
+    for k in ("commands::test::handle_plaintext_directory", "commands::test::handle_structured_directory_report"):
+        f = cr.fns.get(k)
+        if not f:
+            ctx.lost(rule, rule + ":directory-naming", k)
+            return
+        names = set()
+        unit = [kk for kk in cr.fns if kk == k or kk.startswith(k + "::{closure")]
+        for kk in unit:
+            fx = cr.fns[kk]
+            for bi, t in M.iter_calls(fx):
+                if M.norm_path(t["fn"].get("path", "")).endswith("LocatedSpan::new_extra") and len(t["args"]) == 2:
+                    names.add(receiver_field(cr, fx, t["args"][1]) or "(computed)")
+        got[k.split("::")[-1]] = sorted(names)
+    vals = list(got.values())
+    ok = all(v and v == vals[0] and v != ["(computed)"] for v in vals)
+    ctx.ob(rule, rule + ":directory-naming", ok, "rules files are parsed under the name %s" % got + ("" if ok else ": the default rule is called differently in the plain and the structured report, so the same expectation is met in one and unset in the other"),
+           fn=cr.fns.get("commands::test::handle_structured_directory_report"))
+
+
 def run(ctx):
     cr = ctx.lib
+    directory_naming(ctx, cr)
     same_core(ctx, cr)
     status_match(ctx, cr)
     buckets(ctx, cr)
